@@ -202,7 +202,7 @@ def _work(sim: Sim, job: tuple, fnd: list[dict], stop_path: str) -> dict:
                         else:
                             seen_oracles.add(v["oracle"])
                             res["violations"].append(_confirm_and_shrink(sim, zyg, executed, trace, v, out.digest, do_shrink))
-                    if len(executed) < 400:
+                    if len(executed) < 6000:
                         executed.append(trace)
             except HarnessTimeout:
                 res["timeouts"] += 1
